@@ -12,6 +12,11 @@ Three exhaustive families of histories (bounds per tier in ``bounds()``):
       request set — so every original is re-examined after every derivation;
   H0  argument shapes: for every family of <= D0 derivations, every live node x the full product
       verb x path x params x body x caller headers x raw_response;
+  H3  canned responses: for every family of <= D3 derivations, every live node x entry point x every
+      canned response body {default JSON object, empty, "0", "null", "[]", "{}", non-JSON text} x
+      raw_response {False, True}: the response processors of the whole chain must each run once, in
+      reverse order, on the value the reference model defines (a non-JSON body with raw_response=False
+      has no defined result: counted, not judged);
   H2  request sequences: every interleaving of D2 derivations and K requests (no probing in between),
       requests taken from node x entry point x a small shape alphabet; caller-owned header/param/body
       objects are *shared* between the requests of one history.
@@ -78,6 +83,10 @@ REQUIRED_FEATURES = [
     "entry:wrapper+empty-prefix", "arg:params", "body:none", "body:str", "body:bytes", "body:json",
     "body:falsy", "hdr:caller", "hdr:content-type", "hdr:own-request-id", "raw-response",
     "reprobe-of-original", "chain:2+contributors", "chain:prefix-under-prefix", "chain:resp-under-resp",
+    "response:empty-body:with-processors", "response:empty-body:raw:with-processors",
+    "response:json-falsy:with-processors", "response:json-falsy:raw:with-processors",
+    "response:non-json:raw:with-processors", "response:non-json:undefined-not-judged",
+    "response:empty-body:2-processors",
     "shared-caller-object-reused", "root:str", "root:str-slash", "root:list", "root:dict-noids",
     "verb:get", "verb:post", "verb:put", "verb:delete", "verb:patch",
 ]
@@ -112,8 +121,13 @@ HEADERS = [None, {"X-Custom": "v"},
            {"Content-Type": "text/plain", "X-Request-ID": "my-id-1", "Accept": "a/b"}]
 
 
-def shape(verb, path, params=None, data=("none",), headers=None, raw=False):
-    return {"verb": verb, "path": path, "params": params, "data": list(data), "headers": headers, "raw": raw}
+RESP_BODIES = [None, "", "0", "null", "[]", "{}", "plain text, not json"]   # None: {"n": <request counter>}
+
+
+def shape(verb, path, params=None, data=("none",), headers=None, raw=False, resp=None):
+    """resp: canned response body the recorder answers with (None = the default JSON object)."""
+    return {"verb": verb, "path": path, "params": params, "data": list(data), "headers": headers, "raw": raw,
+            "resp": resp}
 
 
 PROBE = [
@@ -124,7 +138,9 @@ PROBE = [
     shape("put", "/r/s", params=PARAMS[1], data=DATAS[3], headers=HEADERS[2]),
     shape("delete", "r/s", headers=HEADERS[1]),
     shape("patch", "/r/s", data=DATAS[3], raw=True),
+    shape("get", "/r/s", resp=""),
 ]
+RESP_SHAPES = [shape("get", "/r/s", raw=raw, resp=body) for body in RESP_BODIES for raw in (False, True)]
 CALLER_PROBE = [PROBE[4], PROBE[6]]
 PROBE_LIGHT = [PROBE[1], PROBE[4], PROBE[6]]
 CALLER_PROBE_LIGHT = [PROBE[4]]
@@ -143,10 +159,12 @@ TIERS = {
     #     probing "full": full probe set after every derivation; "light-last": light set after the last one
     "quick": {"H1": [("str", 3, "full"), ("str-slash", 2, "full"), ("list", 2, "full"), ("dict-noids", 2, "full")],
               "H0": {"str": 1, "str-slash": 0, "list": 0, "dict-noids": 0},
+              "H3": {"str": 2, "dict-noids": 1},
               "H2": [("str", 2, 2)]},
     "thorough": {"H1": [("str", 3, "full"), ("str", 4, "light-last"), ("str-slash", 3, "full"), ("list", 3, "full"),
                         ("dict-noids", 3, "full")],
                  "H0": {"str": 2, "str-slash": 1, "list": 1, "dict-noids": 1},
+                 "H3": {"str": 3, "dict-noids": 2, "list": 2, "str-slash": 1},
                  "H2": [("str", 2, 2), ("str", 2, 3), ("dict-noids", 2, 2), ("list", 2, 2)]},
 }
 
@@ -154,7 +172,8 @@ TIERS = {
 def bounds(tier):
     t = TIERS[tier]
     return {"H1_derivation_depth_per_root": t["H1"], "H0_family_depth_per_root": t["H0"],
-            "H2_root_derivations_requests": t["H2"],
+            "H2_root_derivations_requests": t["H2"], "H3_family_depth_per_root": t["H3"],
+            "canned_response_bodies": RESP_BODIES,
             "roots": {k: v["conn_data"] for k, v in ROOTS.items()},
             "layers": [P1, P2, PQ, PC1, PC2, BASIC, TOKEN, CLIENT, HDR, ["resp", "<position>"], RS],
             "shared_adapter_list_objects": {"wrap list*": COMMON_W, "clone list*": COMMON_C},
@@ -248,10 +267,14 @@ class Recorder:
         self.responses = []
         self.n = 0
 
+    next_body = None      # canned body (str) for the next response; None: the default JSON object
+
     def open(self, request, *a, **kw):
         self.n += 1
         self.requests.append(request)
-        r = _Resp(request.get_method(), json.dumps({"n": self.n}).encode())
+        body = json.dumps({"n": self.n}) if self.next_body is None else self.next_body
+        self.last_body = body
+        r = _Resp(request.get_method(), body.encode("utf-8"))
         self.responses.append(r)
         return r
 
@@ -480,12 +503,26 @@ class World:
         # the call
         rec = self.rec
         before = len(rec.requests)
+        rec.next_body = shp.get("resp")
+        nresp = sum(1 for l in chain if l[0] == "resp")
+        if shp.get("resp") is not None:
+            rk = "empty-body" if shp["resp"] == "" else "non-json" if not hm.expected_leaf(shp["resp"], False)[0] \
+                else "json-falsy"
+            if rk == "non-json" and not shp["raw"]:
+                f.add("response:non-json:undefined-not-judged")
+            else:
+                f.add(f"response:{rk}" + (":raw" if shp["raw"] else "") + (":with-processors" if nresp else ""))
+                if nresp >= 2:
+                    f.add(f"response:{rk}:2-processors")
         try:
             if entry == "conn":
                 ret = getattr(self.real[node], verb)(path, **kw)
             else:
                 ret = getattr(self.real[node], entry)(verb, path, kw)
         except Exception as e:  # noqa - judged
+            rec.next_body = None
+            if not hm.expected_leaf(rec.last_body if len(rec.requests) > before else "", shp["raw"])[0]:
+                return []        # non-JSON body, decoded mode: no result defined by the statement
             return [("request-raises-" + type(e).__name__, f"request raised {type(e).__name__}: {e}",
                      f"{type(e).__name__}: {e}", "request is sent")]
         out = []
@@ -498,11 +535,16 @@ class World:
         out.extend(hm.compare_request(fam, chain, verb, path, params if params is None else snap[1],
                                       snap[2], snap[0], obs))
         # return value
-        leaf = "<raw-response>" if shp["raw"] else {"n": rec.n}
-        want = hm.expected_response(chain, leaf)
-        got = _normalise_ret(ret, rec.responses[-1] if shp["raw"] else None)
-        if got != want:
-            out.append(("response", "response processors not applied once each in reverse order", got, want))
+        rec.next_body = None
+        defined, leaf = hm.expected_leaf(rec.last_body, shp["raw"])
+        if defined:
+            want = hm.expected_response(chain, leaf)
+            got = _normalise_ret(ret, rec.responses[-1] if shp["raw"] else None, nresp)
+            if got != want:
+                cls = "response" if shp.get("resp") is None else \
+                    "response-" + ("empty-body" if shp["resp"] == "" else "canned-body")
+                out.append((cls, "response processors not applied once each in reverse order to the response",
+                            got, want))
         # caller-owned objects
         for name, obj, was in (("headers", headers, snap[0]), ("params", params, snap[1]), ("data", data, snap[2])):
             if obj != was or type(obj) is not type(was):
@@ -536,11 +578,11 @@ def _shape_features(shp):
     return k[1]
 
 
-def _normalise_ret(ret, raw_obj):
+def _normalise_ret(ret, raw_obj, depth=99):
     if raw_obj is not None and ret is raw_obj:
         return "<raw-response>"
-    if isinstance(ret, list) and len(ret) == 3 and ret[0] == "resp":
-        return ["resp", ret[1], _normalise_ret(ret[2], raw_obj)]
+    if depth > 0 and isinstance(ret, list) and len(ret) == 3 and ret[0] == "resp":
+        return ["resp", ret[1], _normalise_ret(ret[2], raw_obj, depth - 1)]
     if isinstance(ret, (dict, list, str, int, float, bool)) or ret is None:
         return ret
     return repr(type(ret))
@@ -700,6 +742,11 @@ def shards(tier):
         for depth in range(1, dmax + 1):
             for i in range(n_first_choices(root, last=(depth == 1))):
                 out.append(("H0", root, depth, i))
+    for root, dmax in t["H3"].items():
+        out.append(("H3", root, 0, None))
+        for depth in range(1, dmax + 1):
+            for i in range(n_first_choices(root, last=(depth == 1))):
+                out.append(("H3", root, depth, i))
     for root, nd, nr in t["H2"]:
         for pat in patterns(nd, nr):
             for i in range(n_first_choices(root, last=False) - 0):
@@ -900,6 +947,23 @@ def run_shard(shard, tier, seed, acc):
                         w, findings, executed = run_ops(rootname, ops + reqs)
                         _account(acc, w, findings, len(executed))
                         _report(acc, rootname, findings, shrunk)
+                if acc.expired():
+                    return
+        elif kind == "H3":
+            _, _, depth, first = shard
+            for ops in derivation_sequences(rootname, depth, first):
+                if any(len(o) > 3 and o[3] == "tuple" for o in ops):
+                    continue
+                fam = _fresh_family(rootname)
+                for o in ops:
+                    model_apply(fam, o)
+                reqs = []
+                for node, n in enumerate(fam.nodes):
+                    for entry in (["conn"] if n["kind"] == "conn" else list(ENTRY_COMPONENT)):
+                        reqs.extend(["req", node, entry, s] for s in RESP_SHAPES)
+                w, findings, executed = run_ops(rootname, ops + reqs)
+                _account(acc, w, findings, len(executed))
+                _report(acc, rootname, findings, shrunk)
                 if acc.expired():
                     return
         elif kind == "H2":
